@@ -170,6 +170,9 @@ def judge(env, tok, obj, exp, alg_i, ser, payload, kid_mode, keyform, b64):
             return False
         if ss[0]["params"] != PARAMS[name] or vs[0]["params"] != PARAMS[name]:
             return False
+    # C12: nothing private was encoded into the token
+    if ice.leak_scan(env, tok, [k.raw_value for k in ks if k.key_type == "oct"], ["k1", "k2", "k3"]):
+        return False
     return True
 
 
